@@ -2,5 +2,7 @@
 pub mod enumstr;
 pub mod lit;
 pub mod msg;
+#[cfg(feature = "full")]
 pub mod plan;
+#[cfg(feature = "full")]
 pub mod tree;
